@@ -1669,3 +1669,223 @@ Section Exec6.
       + unfold field_item. rewrite Hsh. destruct (N.eqb_spec wtN WT_BYTES); [contradiction|]. reflexivity.
   Qed.
 End Exec6.
+
+Section Exec7.
+  Variable sch : schema.
+  Variable discard : bool.
+  Variable child : child_t.
+  Variable depth : Z.
+  Variable fs : list field.
+  Variable data : list byte.
+  Variable lfuel : nat.
+  Notation dlen := (Z.of_nat (length data)).
+  Hypothesis Hlen : dlen < Z.of_N two63.
+  Hypothesis Hlen8 : dlen + 8 < Z.of_N two63.
+
+  Notation exec' := (exec sch discard child depth fs data dlen lfuel).
+  Notation run' := (run_block sch discard child depth fs data dlen lfuel).
+  Notation cond' := (cond sch discard depth fs data dlen).
+  Notation eval' := (eval sch fs data dlen).
+  Notation eval_int' := (eval_int sch fs data dlen).
+  Notation atom' := (exec_atom sch child fs data dlen).
+  Notation block' := (block sch discard child depth fs data dlen lfuel).
+  Notation for_loop' := (for_loop sch discard child depth fs data dlen lfuel).
+  Notation sfx' := (sfx data).
+  Notation at_ z ss u := {| us_idx := z; us_rest := sfx data z; us_slots := ss; us_unk := u |}.
+  Variable md : msgdesc.
+  Hypothesis Hmd : m_fields md = fs.
+  Hypothesis Hfuel : (length data < lfuel)%nat.
+  Hypothesis Hchild_nil : forall m mdm bs, get_msg sch m = Some mdm -> child m VNil bs = child m (empty_msg mdm) bs.
+  Hypothesis Hchild_wt : child_wt sch child.
+
+  Notation res_of' := (res_of data).
+
+  (* ---- results of field_item are suffixes of the input *)
+  Lemma packed_loop_sfx kd : forall fuel k acc z s' r, 0 <= z <= dlen ->
+    packed_loop fuel kd k acc (sfx' z) = Ok (s', r) -> exists z', r = sfx' z' /\ z <= z' <= dlen.
+  Proof.
+    induction fuel as [|fuel IH]; intros k acc z s' r Hz; cbn [packed_loop]; [discriminate|].
+    destruct (k <=? 0).
+    - intro E. injection E as _ <-. exists z. split; [reflexivity|lia].
+    - destruct (dec_scalar kd (sfx' z)) as [[v r0]|] eqn:Ed; [|discriminate].
+      destruct (dec_scalar_sfx data kd z v r0 Hz Ed) as (z1 & -> & Hz1).
+      intro E. apply IH in E; [|lia]. destruct E as (z' & -> & Hz'). exists z'. split; [reflexivity|lia].
+  Qed.
+
+  Lemma dec_item_sfx t tg z v r : 0 <= z <= dlen ->
+    dec_item child t tg (sfx' z) = Ok (v, r) -> exists z', r = sfx' z' /\ z <= z' <= dlen.
+  Proof.
+    intros Hz. unfold dec_item. destruct t as [k|m].
+    - destruct (dec_scalar k (sfx' z)) as [[v0 r0]|] eqn:Ed; [|discriminate].
+      destruct (dec_scalar_sfx data k z v0 r0 Hz Ed) as (z1 & -> & Hz1).
+      intro E. injection E as _ <-. exists z1. split; [reflexivity|lia].
+    - destruct (take_len (sfx' z)) as [[p r0]|] eqn:Et; [|discriminate].
+      destruct (take_len_sfx data z p r0 Hz Et) as (z1 & Ln & ? & ? & ? & _ & ->).
+      destruct (child m tg p); try discriminate. intro E. injection E as _ <-. eexists. split; [reflexivity|lia].
+  Qed.
+
+  Lemma field_item_sfx i f wt msg z msg' r : 0 <= z <= dlen ->
+    field_item sch child md i f wt msg (sfx' z) = Ok (msg', r) -> exists z', r = sfx' z' /\ z <= z' <= dlen.
+  Proof.
+    intros Hz. unfold field_item.
+    assert (Hpk : forall kd s0,
+      match dec_varint (sfx' z) with
+      | Some (raw, _, rest2) =>
+        if s64 raw <? 0 then Err
+        else if Z.of_nat (length rest2) <? s64 raw then Err
+        else match packed_loop (S (length rest2)) kd (s64 raw) s0 rest2 with
+             | Ok (s', r) => Ok (VMsg (set_nth (slots_of msg) i s') (unk_of msg), r)
+             | Err => Err | Panic => Panic | OutOfFuel => OutOfFuel end
+      | None => Err end = Ok (msg', r) -> exists z', r = sfx' z' /\ z <= z' <= dlen).
+    { intros kd s0. destruct (dec_varint (sfx' z)) as [[[raw n] rest2]|] eqn:Ed; [|discriminate].
+      destruct (dec_varint_sfx data z raw n rest2 Hz Ed) as (-> & ? & ?).
+      destruct (s64 raw <? 0); [discriminate|]. destruct (_ <? s64 raw); [discriminate|].
+      destruct (packed_loop _ kd (s64 raw) s0 _) as [[s' r0]| | |] eqn:Ep; try discriminate.
+      apply packed_loop_sfx in Ep; [|lia]. destruct Ep as (z' & -> & ?).
+      intro E. injection E as _ <-. exists z'. split; [reflexivity|lia]. }
+    assert (Hsc : forall kd (g : val -> val),
+      match dec_scalar kd (sfx' z) with Some (v, r) => Ok (g v, r) | None => Err end = Ok (msg', r) ->
+      exists z', r = sfx' z' /\ z <= z' <= dlen).
+    { intros kd g. destruct (dec_scalar kd (sfx' z)) as [[v r0]|] eqn:Ed; [|discriminate].
+      destruct (dec_scalar_sfx data kd z v r0 Hz Ed) as (z1 & -> & Hz1).
+      intro E. injection E as _ <-. exists z1. split; [reflexivity|lia]. }
+    assert (Hit : forall t tg (g : val -> val),
+      match dec_item child t tg (sfx' z) with Ok (v, r) => Ok (g v, r) | Err => Err | Panic => Panic | OutOfFuel => OutOfFuel end = Ok (msg', r) ->
+      exists z', r = sfx' z' /\ z <= z' <= dlen).
+    { intros t tg g. destruct (dec_item child t tg (sfx' z)) as [[v r0]| | |] eqn:Ed; try discriminate.
+      apply dec_item_sfx in Ed; [|lia]. destruct Ed as (z1 & -> & ?).
+      intro E. injection E as _ <-. exists z1. split; [reflexivity|lia]. }
+    destruct (f_shape f) as [|p|oi|kk].
+    - destruct (wt =? _)%N; [|discriminate]. apply Hit.
+    - destruct (f_ty f) as [kd|m].
+      + destruct (negb _).
+        * destruct (wt =? kind_wt kd)%N; [apply (Hsc kd (fun v => VMsg (set_nth (slots_of msg) i (list_append (nth i (slots_of msg) VNil) v)) (unk_of msg)))|].
+          destruct (wt =? WT_BYTES)%N; [|discriminate]. apply Hpk.
+        * destruct (wt =? WT_BYTES)%N; [|discriminate].
+          apply (Hsc kd (fun v => VMsg (set_nth (slots_of msg) i (list_append (nth i (slots_of msg) VNil) v)) (unk_of msg))).
+      + destruct (wt =? WT_BYTES)%N; [|discriminate].
+        apply (Hit (TMsg m) VNil (fun v => VMsg (set_nth (slots_of msg) i (list_append (nth i (slots_of msg) VNil) v)) (unk_of msg))).
+    - destruct (wt =? _)%N; [|discriminate].
+      apply (Hit (f_ty f) _ (fun v => VMsg (set_nth (clear_oneof (m_fields md) (slots_of msg) oi) i (VSome v)) (unk_of msg))).
+    - destruct (wt =? WT_BYTES)%N; [|discriminate].
+      destruct (dec_varint (sfx' z)) as [[[raw n] rest2]|] eqn:Ed; [|discriminate].
+      destruct (dec_varint_sfx data z raw n rest2 Hz Ed) as (-> & ? & ?). cbv zeta.
+      destruct (Z.ltb_spec (s64 raw) 0); [discriminate|]. rewrite sfx_len by lia.
+      destruct (Z.ltb_spec (dlen - (z + Z.of_nat n)) (s64 raw)); [discriminate|].
+      destruct (entry_loop _ _ _ _ _ _ _ _) as [[k0 v0]| | |]; try discriminate.
+      intro E. injection E as _ <-. rewrite sfx_zskipn by lia. eexists. split; [reflexivity|lia].
+  Qed.
+
+  (* ---- the switch and the default clause *)
+  Lemma run_switch x cases dflt b en st :
+    run' (UsSwitch x cases dflt :: b) en st =
+    xlift (var_int x en) (fun z => match switch_find sch discard child depth fs data dlen lfuel z cases dflt en st with
+                                   | XNext en' st' => run' b en' st' | r => r end).
+  Proof. cbn [run_block]. rewrite exec_switch. destruct (var_int x en); reflexivity. Qed.
+
+  Lemma switch_spec fs' : forall i0 z en st,
+    switch_find sch discard child depth fs data dlen lfuel z (u_cases i0 fs') u_default en st =
+    match find_field fs' i0 z with
+    | Some (i, f) => block' (u_case i f) en st
+    | None => block' u_default en st
+    end.
+  Proof.
+    induction fs' as [|f fs' IH]; intros i0 z en st; cbn [u_cases switch_find find_field]; [reflexivity|].
+    rewrite (Z.eqb_sym z). destruct (Z.of_N (f_num f) =? z); [reflexivity|]. apply IH.
+  Qed.
+
+  Lemma default_spec en z0 z ss u :
+    env_get UvPreIndex en = Some (LV (VInt z0)) -> 0 <= z0 <= dlen -> 0 <= z <= dlen ->
+    block' u_default en (at_ z ss u) =
+    match Skip (sfx' z0) with
+    | Ok skippy =>
+      if dlen - z0 <? skippy then XDone Err
+      else XNext en (at_ (z0 + skippy) ss (if discard then u else u ++ firstn (Z.to_nat skippy) (sfx' z0)))
+    | _ => XDone Err
+    end.
+  Proof.
+    intros Hpre Hz0 Hz. unfold block, u_default.
+    erewrite run_skip; [|side ..].
+    destruct (Skip_ok_or_err (sfx' z0)) as [[n Hn]|Hn]; rewrite Hn; [|reflexivity].
+    pose proof (Skip_upper (sfx' z0) n) as Hup. rewrite sfx_len in Hup by lia. specialize (Hup ltac:(lia) Hn).
+    destruct (Z.ltb_spec (dlen - z0) n); [reflexivity|].
+    rewrite run_if. ev. destruct discard; cbn [negb].
+    - idxadd. done_env. reflexivity.
+    - unfold block. atom. rewrite wrap64_small by lia. rewrite slice_at by lia. ev. rewrite run_nil. ev. rewrite env_restore_refl.
+      idxadd. done_env. replace (z0 + n - z0) with n by lia. reflexivity.
+  Qed.
+
+  (* ---- the message loop *)
+  Variable mid : nat.
+  Hypothesis Hgm : get_msg sch mid = Some md.
+  Hypothesis Hmwf : msg_wf (length sch) md = true.
+
+  Definition main_body : list ustmt :=
+    [UsDecl UvPreIndex EIdx;
+     UsVar UvWire GU64; UsVarint (TgVar UvWire) GU64;
+     UsDecl UvFieldNum (EConv GI32 (EShr (u_v UvWire) 3));
+     UsDecl UvWireType (EConv GInt (EAnd (u_v UvWire) 7));
+     UsIf (CCmp OEq (u_v UvWireType) (ENum 4)) (u_ret ErEndGroup);
+     UsIf (CCmp OLe (u_v UvFieldNum) (ENum 0)) (u_ret ErIllegalTag);
+     UsSwitch UvFieldNum (u_cases 0 fs) u_default].
+
+  Lemma wt_slots_length fs' : forall ss, wt_slots sch fs' ss = true -> length ss = length fs'.
+  Proof.
+    induction fs' as [|f fs' IH]; intros [|s ss] H; cbn [wt_slots] in H; try discriminate; [reflexivity|].
+    apply andb_prop in H. destruct H as [_ H]. cbn [length]. f_equal. apply IH. exact H.
+  Qed.
+
+  Lemma main_loop : forall fuel z ss u, 0 <= z <= dlen -> wt_msg sch mid (VMsg ss u) = true ->
+    match for_loop' fuel (CCmp OLt EIdx EL) main_body [] (at_ z ss u) with
+    | XNext en' st' => run' [UsIf (CCmp OGt EIdx EL) (u_ret ErEOF); UsRet ErNil] en' st'
+    | r => r
+    end = XDone (msg_loop sch discard child md fuel (VMsg ss u) (sfx' z)).
+  Proof.
+    induction fuel as [|fuel IH]; intros z ss u Hz Hwt; [reflexivity|].
+    cbn [for_loop msg_loop]. ev.
+    destruct (Z.ltb_spec z dlen) as [Hlt|Hge].
+    2:{ assert (z = dlen) by lia. subst z. rewrite (proj2 (sfx_nil data dlen ltac:(lia)) eq_refl).
+        ifret. destruct (Z.ltb_spec dlen dlen); [lia|]. atom. reflexivity. }
+    destruct (sfx' z) as [|b0 t0] eqn:Esf; [apply (sfx_nil data z Hz) in Esf; lia|]. rewrite <- Esf. clear Esf b0 t0.
+    unfold block, main_body. atom. atom. rewrite run_varint_var by side.
+    destruct (dec_varint (sfx' z)) as [[[raw m] r1]|] eqn:Ed; [|reflexivity].
+    destruct (dec_varint_sfx data z raw m r1 Hz Ed) as (-> & Hm1 & Hm2).
+    ev. atom. atom. change (7 <? 0) with false. ev. autorewrite with vals. cbv zeta.
+    ifret. change 4 with (Z.of_N 4). rewrite (N2Z_eqb data). destruct (u64 raw mod 8 =? 4)%N; [reflexivity|].
+    ifret. destruct (s32 (u64 raw / 8) <=? 0); [reflexivity|].
+    rewrite run_switch. ev. rewrite switch_spec. rewrite Hmd.
+    remember (z + Z.of_nat m) as z1 eqn:Ez1.
+    rewrite wt_msg_unfold, Hgm in Hwt. apply andb_prop in Hwt. destruct Hwt as [Hws Hoo].
+    destruct (find_field fs 0 (s32 (u64 raw / 8))) as [[idx f]|] eqn:Eff.
+    - apply find_field_in in Eff. destruct Eff as [_ Hf]. rewrite Nat.sub_0_r in Hf.
+      assert (Hfw : field_wf (length sch) (m_oneofs md) f = true).
+      { unfold msg_wf in Hmwf. apply andb_prop in Hmwf. destruct Hmwf as [Hall _].
+        rewrite forallb_forall in Hall. apply Hall. rewrite Hmd. eapply nth_error_In. exact Hf. }
+      rewrite Hmd in Hws.
+      assert (Hidx : (idx < length ss)%nat).
+      { rewrite (wt_slots_length _ _ Hws). apply nth_error_Some. congruence. }
+      destruct (nth_error ss idx) as [s|] eqn:Hs; [|apply nth_error_None in Hs; lia].
+      pose proof (wt_slots_nth _ _ _ _ _ Hws Hf) as Hsl. rewrite (nth_error_nth' ss idx s VNil Hs) in Hsl.
+      match goal with |- context [block _ _ _ _ _ _ _ _ (u_case idx f) ?en _] =>
+        rewrite (case_spec sch discard child depth fs data lfuel Hlen Hlen8 md Hmd Hfuel Hchild_nil Hchild_wt idx f (u64 raw mod 8) en z1 ss u s Hf Hfw eq_refl ltac:(lia) Hs Hsl) end.
+      destruct (field_item sch child md idx f (u64 raw mod 8) (VMsg ss u) (sfx' z1)) as [[msg' r]| | |] eqn:Efi; try reflexivity.
+      destruct (field_item_sfx idx f (u64 raw mod 8) (VMsg ss u) z1 msg' r ltac:(lia) Efi) as (z' & -> & Hz').
+      assert (Hwt' : wt_msg sch mid msg' = true).
+      { eapply field_item_wt; [exact Hchild_wt|exact Hgm|rewrite Hmd; exact Hf| |exact Efi].
+        rewrite wt_msg_unfold, Hgm, Hmd, Hws, Hoo. reflexivity. }
+      destruct msg' as [| | | | | |ss' u'| |]; try discriminate Hwt'.
+      cbn [res_of slots_of unk_of]. rewrite sfx_len by lia. rewrite Z_sub_sub.
+      rewrite run_nil. cbn [leave]. repeat (rewrite env_restore_cons by (cbn [length]; lia)). rewrite env_restore_refl.
+      apply IH; [lia|exact Hwt'].
+    - rewrite (default_spec _ z z1) by (try reflexivity; lia).
+      destruct (Skip_ok_or_err (sfx' z)) as [[n Hn]|Hn]; rewrite Hn; [|reflexivity].
+      pose proof (Skip_upper (sfx' z) n) as Hup. rewrite sfx_len in Hup by lia. specialize (Hup ltac:(lia) Hn).
+      rewrite sfx_len by lia.
+      destruct (Z.ltb_spec (dlen - z) n); [reflexivity|].
+      rewrite run_nil. cbn [leave]. repeat (rewrite env_restore_cons by (cbn [length]; lia)). rewrite env_restore_refl.
+      rewrite IH; [| lia |].
+      + rewrite sfx_zskipn by lia. rewrite zfirstn_nat by (rewrite sfx_len; lia). cbn [slots_of unk_of].
+        destruct discard; reflexivity.
+      + rewrite wt_msg_unfold, Hgm, Hws, Hoo. reflexivity.
+  Qed.
+End Exec7.
